@@ -368,6 +368,15 @@ def build(s, _ctr=None, refs=None, qreg=None):
     _ctr[0] += 1
     p = s["p"]
     if p == "Count":
+        if s.get("transform") == "sq" and s.get("tq"):
+            # C17: one (cached or plain) transform object shared by several Counts
+            from histogrammar.util import cached as _cached
+
+            key = ("t", s["tq"]["id"], s["tq"].get("mode", "cached"))
+            if key not in qreg:
+                fn = eval("lambda w: w * w", {})
+                qreg[key] = _cached(fn) if s["tq"].get("mode", "cached") == "cached" else fn
+            return hg.Count(qreg[key])
         if s.get("transform") == "sq":
             return hg.Count(eval("lambda w: w * w", {}))
         return hg.Count()
